@@ -473,9 +473,12 @@ func genCase(t *rapid.T, maxDecls, nreqs int, full bool) Case {
 		c.Decls = append(c.Decls, d)
 	}
 	for r := 0; r < nreqs; r++ {
-		req := Req{Multipart: hasFile || rapid.Bool().Draw(t, "multipart"), UpperCT: rapid.IntRange(0, 3).Draw(t, "content-type-capitals") == 0}
+		req := Req{Multipart: rapid.Bool().Draw(t, "multipart"), UpperCT: rapid.IntRange(0, 3).Draw(t, "content-type-capitals") == 0}
 		for _, d := range c.Decls {
 			req.Sent = append(req.Sent, genSent(t, d, full))
+			if req.Sent[len(req.Sent)-1].File != nil {
+				req.Multipart = true // a file travels in a multipart body; a request that sends none may be urlencoded (r7)
+			}
 		}
 		if req.Multipart && rapid.IntRange(0, 5).Draw(t, "multipart-body-cut") == 0 {
 			req.CutTail = rapid.IntRange(1, 8).Draw(t, "cut-bytes")
